@@ -415,7 +415,39 @@ func cancelWorker(req N) (resp N) {
 	g0 := runtime.NumGoroutine()
 	t0 := time.Now()
 	var err error
-	if reuse, _ := req["reuse"].(string); reuse != "" {
+	if reuse, _ := req["reuse"].(string); reuse == "wait" {
+		// one VM, two invocations under DIFFERENT contexts: a run under a host context that stays live starts a
+		// thread and keeps it in a global; later a Call under the request's context (deadline) waits for that
+		// thread. The Call must return when ITS context is done. Afterwards the host context is cancelled, which
+		// must stop the thread.
+		hostCtx, hostCancel := context.WithCancel(context.Background())
+		defer hostCancel()
+		hvos := ros.NewVirtualOS(hostCtx, ros.WithStdout(stdout))
+		opts := []risor.Option{risor.WithOS(hvos), risor.WithConcurrency(), risor.WithGlobal("tick", tick)}
+		machine, verr := vm.NewEmpty()
+		if verr != nil {
+			return N{"k": "novm", "msg": verr.Error()}
+		}
+		cfg := risor.NewConfig(opts...)
+		prog, perr := parser.Parse(context.Background(), "import time\nt := spawn(func() { for { tick(7)\n time.sleep(0.002) } })\nfunc join() { return t.wait() }\n1")
+		if perr != nil {
+			return N{"k": "nofirst", "msg": perr.Error()}
+		}
+		code, cerr := compiler.Compile(prog, cfg.CompilerOpts()...)
+		if cerr != nil {
+			return N{"k": "nofirst", "msg": cerr.Error()}
+		}
+		if ferr := machine.RunCode(hostCtx, code, cfg.VMOpts()...); ferr != nil {
+			return N{"k": "nofirst", "msg": ferr.Error()}
+		}
+		jo, gerr := machine.Get("join")
+		if gerr != nil {
+			return N{"k": "nofirst", "msg": gerr.Error()}
+		}
+		t0 = time.Now()
+		_, err = machine.Call(ctx, jo.(*object.Function), nil)
+		hostCancel() // the thread of the first run must stop with ITS context: its ticks are sampled below
+	} else if reuse != "" {
 		// one VM, two runs under the SAME context, which is done before the second run starts: cancelled while
 		// the VM was idle ("idle": the first run is a trivial program) or during the first run ("during": the
 		// first run is the script itself, stopped by the cancellation). The second run must return at once.
